@@ -29,6 +29,17 @@ type cpuRig struct {
 	am    *mem.Image // image behind the alternative CPU
 }
 
+// Where an interpreter object sits in host memory is the caller's choice: CPUs are plain structs that
+// callers embed by value. In the rig the primary CPU follows five 32-bit words, and the alternative one
+// lives in a struct behind a single 32-bit field: on targets with 4-byte struct alignment (386) both are at
+// addresses that are 4 modulo 8, on 64-bit targets they are 8-aligned.
+type altHolder struct {
+	frame uint32
+	c     cpualt.CPU
+}
+
+func newAltCPU() *cpualt.CPU { return &new(altHolder).c }
+
 // segDev is one of the 2^20 devices that together map the whole 16 MiB: like a memory.RAM sized to
 // its own range it serves only the 16 bytes of its segment, and fails when handed another address.
 type segDev struct {
@@ -63,14 +74,14 @@ func newRig() *cpuRig {
 		if err := g.bus.Attach(g.bm, "all", 0, 0xFFFFFF); err != nil {
 			panic(err)
 		}
-		g.alt = new(cpualt.CPU)
+		g.alt = newAltCPU()
 		g.alt.Init()
 		g.alt.Bus.AttachReader(0, 0xFFFFFF, func(a uint32) uint8 { return g.am.RdAddr(a) })
 		g.alt.Bus.AttachWriter(0, 0xFFFFFF, func(a uint32, v uint8) { g.am.WrAddr(a, v) })
 		return g
 	}
 	if altFirst {
-		g.alt = new(cpualt.CPU)
+		g.alt = newAltCPU()
 		g.alt.Init()
 	}
 	// the whole bus is mapped, by one device per 16-byte segment. Banks $00-$7F are attached to a
@@ -101,7 +112,7 @@ func newRig() *cpuRig {
 	}
 	g.bus = g.buses[0]
 	if !altFirst {
-		g.alt = new(cpualt.CPU)
+		g.alt = newAltCPU()
 		g.alt.Init()
 	}
 	for i := uint32(0); i < 1<<20; i++ {
